@@ -406,7 +406,7 @@ PROPS = {
                   lambda prog, tier: tokens.run_mps(prog),
                   lambda prog, tier: tokens.run_sections(prog, "mpq_ILLwrite_mps", {"ENDATA"}, print_funcs={"mpq_ILLprint_report": 1}, token_ok=lambda t: t.isupper() and len(t) >= 2),
                   lambda prog, tier: idxclass.run(prog, scope_units=("mps_mpq.c", "rawlp_mpq.c")),
-                  lambda prog, tier: sentinel.run(prog), lambda prog, tier: appendinit.run(prog), lambda prog, tier: rescan.run(prog), lambda prog, tier: defaults.run(prog),
+                  lambda prog, tier: sentinel.run(prog), lambda prog, tier: appendinit.run(prog), lambda prog, tier: appendinit.run_repack(prog), lambda prog, tier: rescan.run(prog), lambda prog, tier: defaults.run(prog),
                   lambda prog, tier: fullscan.run(prog, ["mpq_ILLwrite_mps"], ("mps_mpq.c",), floor=6),
                   lambda prog, tier: fullscan.run_rowfilter(prog), lambda prog, tier: trunc.run(prog)],
         "technique": "lossy-conversion sink census over writer/reader closures; table agreement (section names, bound mnemonics, row-type "
@@ -548,7 +548,7 @@ PROPS = {
                   lambda prog, tier: localfield.run(prog, shared_eff(prog)),
                   lambda prog, tier: strscan.run(prog),
                   lambda prog, tier: rawidx.run(prog),
-                  lambda prog, tier: appendinit.run(prog),
+                  lambda prog, tier: appendinit.run(prog), lambda prog, tier: appendinit.run_repack(prog),
                   lambda prog, tier: counter.run(prog),
                   lambda prog, tier: useb4check.run(prog),
                   lambda prog, tier: norms.run(prog),
